@@ -36,8 +36,15 @@ Held(map, groups) == UNION {map[g] : g \in groups}
 \* ---- requests --------------------------------------------------------------------------
 \* URI classes (concretised by the harness): exact registered https / http callback, near-miss
 \* mutations of a registered URI, loopback, registered loopback, near-loopback, app URIs, foreign.
+\* Real loopback: loop (localhost), loophttps, loopip (127.0.0.0/8 literal other than 127.0.0.1), loopv6 ([::1]).
+\* Loopback LOOK-ALIKES (not loopback, not registered): looknot (notlocalhost), lookdash (evil-localhost),
+\* looksub (app.localhost), looksuffix (localhost.evil.example), lookx (localhostx), lookhttps (https://notlocalhost),
+\* ipsuffix (127.0.0.1.evil.example), ipnear (128.0.0.1, 126.255.255.255), v6near ([::2], [::ffff:127.0.0.1]),
+\* loopuser (http://localhost@evil.example/), loopnear (older mixed pool).
+LoopClasses == {"loop", "loophttps", "loopip", "loopv6"}
+LookAlikes  == {"looknot", "lookdash", "looksub", "looksuffix", "lookx", "lookhttps", "ipsuffix", "ipnear", "v6near", "loopuser", "loopnear"}
 UriClasses == {"exact", "exacthttp", "path", "query", "port", "scheme", "frag", "userinfo", "hostsuffix",
-               "loop", "loophttps", "loopnear", "appreg", "appunreg", "foreign"}
+               "appreg", "appunreg", "foreign"} \cup LoopClasses \cup LookAlikes
 Idents == IF Full THEN {"none", "anon", "u0", "u1", "u12"} ELSE {"none", "anon", "u0", "u12"}
 GroupsOf(i) == IF i = "u0" THEN {"all"} ELSE IF i = "u1" THEN {"all", "g1"}
                ELSE IF i = "u12" THEN {"all", "g1", "g2"} ELSE IF i = "anon" THEN {"all"} ELSE {}
@@ -50,7 +57,7 @@ ReqsFull ==
       i \in Idents, pv \in PrevKinds}
 \* quick tier: prompt / previous-consent are varied only for the URI classes on which a code can
 \* be issued at all (for the others the transcription answers before looking at them)
-CodeCapable == {"exact", "exacthttp", "loop", "appreg"}
+CodeCapable == {"exact", "exacthttp", "loop", "loopip", "loopv6", "appreg"}
 ReqsQuick == {r \in ReqsFull : r.u \in CodeCapable \/ (r.prompt = "" /\ r.prev = "no")}
 Reqs == IF Full THEN ReqsFull ELSE ReqsQuick
 
@@ -63,13 +70,13 @@ Facts(c, r) ==
       sup    == Held(SupMap(c.sup), groups)
       uReg   == \/ r.u = "exact" /\ c.regs \in {"https", "mixed"}      \* the https callback
                 \/ r.u = "exacthttp" /\ c.regs \in {"http", "mixed"}   \* the http callback
-      uHttps == \/ r.u \in {"exact", "foreign", "loophttps"}
+      uHttps == \/ r.u \in {"exact", "foreign", "loophttps", "lookhttps"}
                 \/ r.u \in {"path", "query", "port", "frag", "userinfo", "hostsuffix"} /\ HasHttps(c)
                 \/ r.u = "scheme" /\ ~HasHttps(c)                      \* scheme flip of the base URI
   IN [type |-> c.type, lh |-> c.lh, pkceReq |-> c.pkceReq, consentOn |-> c.consentOn,
       secureReq |-> HasHttps(c),
       uReg |-> uReg, uApp |-> (r.u = "appreg" /\ HasApp(c)),
-      uLoop |-> r.u \in {"loop", "loophttps"}, uHttps |-> uHttps,
+      uLoop |-> r.u \in LoopClasses, uHttps |-> uHttps,
       pkce |-> r.pkce, prompt |-> r.prompt,
       ident |-> IF r.ident \in {"none", "anon"} THEN r.ident ELSE "user",
       scopes |-> r.scopes, bad |-> r.scopes \cap {"bad scope"},
